@@ -238,9 +238,10 @@ template <int A, int B, int C, int D, bool TX, bool TY, bool GEN> static void t_
 #ifdef VF_EXCL_MM_GENERIC_NONSQUARE
   if (GEN && !(A == B && C == D && A == C)) { vf_witness(); return; }
 #endif
-#ifdef VF_EXCL_MM_DENSE_NONCONF
+  // AMatrixDense::prodMatMatInPlace with NON-conformable operands is outside the property (the product is not
+  // defined; the dense override documents no refusal): that case is not exercised.  The generic version, which
+  // documents a refusal, is still checked on non-conformable shapes.
   if (!GEN && nm != nm2) { vf_witness(); return; }
-#endif
   MatrixRectangular X(A, B), Y(C, D), R(ni, nj);
   double x0[A][B], y0[C][D], r0[ni][nj];
   fillm<A, B>(X, x0);
